@@ -11,7 +11,7 @@ use std::os::fd::{FromRawFd, RawFd};
 use std::os::unix::process::CommandExt;
 use std::process::{Child, Command, Stdio};
 
-use crate::p_entropy::{SHIM, TX3C};
+use crate::p_entropy::{shim_path, tx3c_path};
 
 #[derive(Clone, Debug)]
 pub struct ProcSpec {
@@ -87,7 +87,7 @@ fn pipe2() -> Result<(RawFd, RawFd), String> {
 fn spawn(spec: &ProcSpec, sched_dir: &str) -> Result<Proc, String> {
     let (ann_r, ann_w) = pipe2()?;
     let (go_r, go_w) = pipe2()?;
-    let mut cmd = Command::new(TX3C);
+    let mut cmd = Command::new(tx3c_path());
     cmd.arg("build")
         .arg(&spec.src_path)
         .arg("--emit")
@@ -95,7 +95,7 @@ fn spawn(spec: &ProcSpec, sched_dir: &str) -> Result<Proc, String> {
         .arg("-o")
         .arg(&spec.out_path)
         .args(&spec.extra)
-        .env("LD_PRELOAD", SHIM)
+        .env("LD_PRELOAD", shim_path())
         .env("VERIF_HASH_SEED", spec.hseed.to_string())
         .env("VERIF_SCHED_DIR", sched_dir)
         .env("VERIF_SCHED_OUT", ann_w.to_string())
